@@ -65,6 +65,9 @@ def gen_axis_md(rng, ids, kind):
              "paths": gen_paths(rng)}
         if kind == "partial":
             e = {k: e[k] for k in ("grp", "paths")}
+        if kind == "sparse":
+            # some IDs carry no metadata at all: a part / a filtered table made only of those has NO metadata
+            e = {"note": "n%d" % rng.randint(0, 2)} if rng.random() < 0.45 else {}
         md.append(e)
     return md
 
@@ -75,8 +78,8 @@ def gen_spec(rng, max_n, max_m):
     obs = core.gen_ids(rng, n, "O")
     samp = core.gen_ids(rng, m, "S")
     return {"obs": obs, "samp": samp, "rows": gen_grid(rng, n, m),
-            "omd": gen_axis_md(rng, obs, rng.choice(["full", "full", "partial", "none"])),
-            "smd": gen_axis_md(rng, samp, rng.choice(["full", "full", "partial", "none"])),
+            "omd": gen_axis_md(rng, obs, rng.choice(["full", "full", "partial", "none", "sparse"])),
+            "smd": gen_axis_md(rng, samp, rng.choice(["full", "full", "partial", "none", "sparse"])),
             "type": rng.choice(core.TYPES)}
 
 
@@ -150,7 +153,7 @@ def gen_labeler(rng, ids, md, for_collapse):
     if not for_collapse:
         names += ["id_len", "list_of_id", "none_all", "mixed_list_tuple"]
     if md is not None:
-        keys = set(md[0].keys()) if md else set()
+        keys = set.intersection(*[set(m.keys()) for m in md]) if md else set()
         if "grp" in keys:
             names += ["by_md:grp"] * 3
         if "depth" in keys and not for_collapse:
@@ -383,6 +386,10 @@ def do_partition(ctx, rng, t, axis, tags, meta):
     ctx.count("partition:remove_empty=%s,ignore_none=%s" % (re_, ign))
     if "parts" in out:
         ctx.count("parts=%d" % min(len(out["parts"]), 6))
+        key = "smd" if axis == "sample" else "omd"
+        if md is not None and any(p["table"][key] is None and p["table"]["samp" if axis == "sample" else "obs"]
+                                  for p in out["parts"]):
+            ctx.count("partition:part_of_only_metadata_free_ids_has_no_metadata")
 
 
 def do_collapse(ctx, rng, t, axis, tags, meta):
@@ -418,7 +425,7 @@ def do_otm(ctx, rng, t, axis, tags, meta):
     icm = rng.random() < 0.8
     key = rng.choice(["Path", "KEGG_Pathways"])
     scripts = None
-    if md is not None and md and "paths" in md[0] and rng.random() < 0.6:
+    if md is not None and md and all("paths" in m for m in md) and rng.random() < 0.6:
         kind = "md_paths"
     else:
         kind = "scripted"
